@@ -56,54 +56,94 @@ def check(src, rep):
                 helpers[name] = settles_args(f.node)
             except Exception:
                 helpers[name] = False
-    ts = TaskTypestate(helpers, None)
-    findings = ts.analyse(cl.node)
-    rep.count("task_handles", len(ts.created))
-    for line, var, srcx, what in findings:
-        rep.violation("R1", f"{MOD}.ConnectionManager.connect_loop", f"task={srcx}", f"task is abandoned while it may still be running: {what}. Pending tasks accumulate per reconnect cycle and "
-                      "an abandoned connect task can connect after close()", file, line, witness=f"handle `{var}`")
-    if not findings:
-        rep.ok("R1", f"{len(ts.created)} task handles", "every task created in connect_loop is Done or Cancelled at every loop back-edge and at function exit "
+    # every coroutine of the manager that creates tasks is a unit: its handles are local, so they must be settled at its own back-edges and exits
+    from sa.asyncts import creates_task
+    units = [f for name, f in CM.methods.items() if isinstance(f.node, ast.AsyncFunctionDef) and any(isinstance(n, ast.Call) and creates_task(n) for n in ast.walk(f.node))]
+    n_handles = 0
+    n_find = 0
+    for f in units:
+        ts = TaskTypestate(helpers, None)
+        findings = ts.analyse(f.node)
+        n_handles += len(ts.created)
+        for line, var, srcx, what in findings:
+            n_find += 1
+            rep.violation("R1", f"{MOD}.ConnectionManager.{f.name}", f"task={srcx}", f"task is abandoned while it may still be running: {what}. Pending tasks accumulate per reconnect cycle and "
+                          "an abandoned connect task can connect after close()", file, line, witness=f"handle `{var}`")
+        # handles must not escape the unit (returned / stored): then the local typestate would not be the whole story
+        for n in ast.walk(f.node):
+            if isinstance(n, ast.Return) and n.value is not None and any(isinstance(x, ast.Name) and x.id in ts.created for x in ast.walk(n.value)):
+                rep.undecide(f"R1 {f.name} returns a task handle: its settlement is outside the per-coroutine typestate")
+            if isinstance(n, ast.Assign) and isinstance(n.targets[0], ast.Attribute) and any(isinstance(x, ast.Name) and x.id in ts.created for x in ast.walk(n.value)):
+                rep.undecide(f"R1 {f.name} stores a task handle in a field: its settlement is outside the per-coroutine typestate")
+        # a settle-helper called with `*pending` (the possibly empty rest of a FIRST_COMPLETED wait) must cope with no task at all:
+        # asyncio.wait() raises ValueError on an empty set
+        for n in ast.walk(f.node):
+            if isinstance(n, ast.Call) and isinstance(n.func, ast.Attribute) and n.func.attr in helpers and any(isinstance(a, ast.Starred) for a in n.args):
+                h = CM.methods.get(n.func.attr)
+                star = next(a for a in n.args if isinstance(a, ast.Starred))
+                from_wait = isinstance(star.value, ast.Name) and star.value.id in ts.sets
+                if h is not None and from_wait and _waits_on_possibly_empty(h.node):
+                    n_find += 1
+                    rep.violation("R1", f"{MOD}.ConnectionManager.{f.name}", "wait-on-empty-set", f"{n.func.attr}(*{star.value.id}) hands the possibly empty rest of a FIRST_COMPLETED wait to a helper "
+                                  "that awaits asyncio.wait() on it: wait() raises ValueError for an empty set, which ends the reconnect loop with live tasks/connection", file, n.lineno)
+    rep.count("task_handles", n_handles)
+    if not n_find:
+        rep.ok("R1", f"{n_handles} task handles in {len(units)} coroutine(s)", "every task created by the manager is Done or Cancelled at every loop back-edge and at the exit of the coroutine that created it "
                f"(helper summaries: {sorted(k for k, v in helpers.items() if v)} settle all their task arguments)")
-    rep.floor("task handles", len(ts.created), 2)
+    rep.floor("task handles", n_handles, 2)
 
     # ---------------------------------------------------------------- R2: guarded connect
-    parents = {c: p for p in ast.walk(tc.node) for c in ast.iter_child_nodes(p)}
-    fac = [n for n in ast.walk(tc.node) if isinstance(n, ast.Await) and "factory" in ast.unparse(n)]
-    rep.require(len(fac) == 1, "factory awaited more than once")
-    node = fac[0]
-    guarded = False
+    # the factory call is reached only on paths that tested the closing event false *since the last suspension point*: field reads carry
+    # the await-epoch in which they happened, so the closing test and the factory read must be in the same epoch
+    tps = Engine(M).run(tc)
+    fac_paths = 0
+    guarded = True
     why = "no dominating test of the closing event"
-    cur = node
-    while cur in parents:
-        par = parents[cur]
-        if isinstance(par, ast.If):
-            t = ast.unparse(par.test).replace(" ", "")
-            in_body = any(cur is x or cur in list(ast.walk(x)) for x in par.body)
-            neg_test = t in (f"notself.{CLOSING}.is_set()",)
-            pos_test = t in (f"self.{CLOSING}.is_set()",)
-            if (neg_test and in_body) or (pos_test and not in_body):
-                # no await between the test and the factory call: statements of the branch before the one containing the call
-                branch = par.body if in_body else par.orelse
-                before = []
-                for st in branch:
-                    if cur is st or cur in list(ast.walk(st)):
-                        # inside the containing statement, awaits that precede the factory await in source order
-                        for x in ast.walk(st):
-                            if isinstance(x, ast.Await) and x is not node and (x.lineno, x.col_offset) < (node.lineno, node.col_offset):
-                                before.append(x)
-                        break
-                    before.extend(x for x in ast.walk(st) if isinstance(x, ast.Await))
-                if before:
-                    why = f"an await ({ast.unparse(before[0])[:40]}) separates the closing test from the factory call"
-                else:
-                    guarded = True
-                break
-        cur = par
+    fline = tc.node.lineno
+
+    facname = next((a.arg for a in CM.methods["__init__"].node.args.args if "factory" in a.arg), None)
+    facfield = next((t.attr for n in ast.walk(CM.methods["__init__"].node) if isinstance(n, (ast.Assign, ast.AnnAssign)) and isinstance(n.value, ast.Name) and n.value.id == facname
+                     for t in (n.targets if isinstance(n, ast.Assign) else [n.target]) if isinstance(t, ast.Attribute)), None) if facname else None
+    rep.require(facfield is not None, "cannot bind the connection-factory field from the constructor parameter")
+
+    def find_factory(sv):
+        """the awaited factory call inside sv -> epoch in which it was started"""
+        if isinstance(sv, tuple):
+            if sv and sv[0] == "await" and len(sv) >= 3 and isinstance(sv[1], tuple) and sv[1][0] in ("call", "calldyn") and facfield in str(sv[1][1]):
+                return ("epoch", sv[2])
+            for x in sv:
+                r = find_factory(x)
+                if r:
+                    return r
+        return None
+    for p in tps:
+        facs = [(e, find_factory(e[3])) for e in p.effects if e[0] == "write" and find_factory(e[3])] + \
+            [(e, ("epoch", e[4])) for e in p.effects if e[0] == "await" and len(e) > 4 and e[1][0] in ("call", "calldyn") and facfield in str(e[1][1])]
+        if not facs:
+            continue
+        fac_paths += 1
+        fline = facs[0][0][4] if facs[0][0][0] == "write" else facs[0][0][2]
+        epoch = facs[0][1][1]
+        tests = [(g, pol) for g, pol, _ in p.guards if g[0] == "call" and g[1] == ".is_set" and strip_epoch(g[2][0]) == ("f0", SELF, CLOSING)]
+        fresh = [(g, pol) for g, pol in tests if (g[2][0][3] if len(g[2][0]) > 3 else 0) == epoch]
+        if not any(not pol for g, pol in fresh):
+            guarded = False
+            if any(not pol for g, pol in tests):
+                why = "an await separates the closing test from the factory call (close() can be called in between)"
+    tparents = {c: p for f in CM.methods.values() for p in ast.walk(f.node) for c in ast.iter_child_nodes(p)}
+    for f in CM.methods.values():
+        for n in ast.walk(f.node):
+            if isinstance(n, ast.Call) and isinstance(n.func, ast.Attribute) and n.func.attr == facfield and not isinstance(tparents.get(n), ast.Await):
+                guarded = False
+                fac_paths += 1
+                fline = n.lineno
+                why = (f"the factory coroutine is wrapped ({ast.unparse(tparents.get(n))[:50]}) instead of being awaited directly: cancelling the connect task on close() does not cancel the attempt, "
+                       "which can complete afterwards")
+    rep.require(fac_paths > 0, "no path of the connecting coroutine reaches the factory")
     if guarded:
-        rep.ok("R2", f"{tc.name}: factory call", "dominated by `not closing.is_set()` with no await between the test and the call")
+        rep.ok("R2", f"{tc.name}: factory call", f"{fac_paths} path(s): dominated by `not closing.is_set()` with no await between the test and the call")
     else:
-        rep.violation("R2", f"{MOD}.ConnectionManager.{tc.name}", "unguarded-connect", f"a connection attempt can be started after close(): {why}", file, node.lineno)
+        rep.violation("R2", f"{MOD}.ConnectionManager.{tc.name}", "unguarded-connect", f"a connection attempt can be started after close(): {why}", file, fline)
     # who may call
     sites = []
     for m in src.text:
@@ -111,7 +151,7 @@ def check(src, rep):
             if isinstance(n, ast.Attribute) and n.attr == tc.name and isinstance(n.ctx, ast.Load):
                 sites.append((m, n.lineno))
     fsites = [(m, n.lineno) for m in src.text for n in ast.walk(src.tree(m)) if isinstance(n, ast.Call) and isinstance(n.func, ast.Attribute) and n.func.attr == "_connection_factory"]
-    spawn_in_loop = [n for n in ast.walk(cl.node) if isinstance(n, ast.Call) and any(isinstance(x, ast.Attribute) and x.attr == tc.name for x in ast.walk(n)) and getattr(n.func, "id", getattr(n.func, "attr", "")) in ("create_task", "ensure_future")]
+    spawn_in_loop = [n for f in CM.methods.values() for n in ast.walk(f.node) if isinstance(n, ast.Call) and any(isinstance(x, ast.Attribute) and x.attr == tc.name for x in ast.walk(n)) and getattr(n.func, "id", getattr(n.func, "attr", "")) in ("create_task", "ensure_future")]
     if len(sites) == 1 and len(spawn_in_loop) == 1 and len(fsites) == 1:
         rep.ok("R2", "who may connect", f"the factory is called only in {tc.name}, which is spawned at exactly one site (once per connect_loop iteration)")
     else:
@@ -145,9 +185,30 @@ def check(src, rep):
         rep.ok("R3", "loop test", "the reconnect loop runs only while the closing event is not set")
 
     # ---------------------------------------------------------------- R4 / R5: paths through one iteration
-    E = Engine(M)
+    E = Engine(M, inline_async=True)
     _, ps = loop_body_paths(E, cl)
     rep.count("iteration_paths", len(ps))
+
+    def is_closing_wait_task(sv):
+        return isinstance(sv, tuple) and sv[0] == "call" and sv[1] in ("create_task", "ensure_future") and sv[2] and sv[2][0][0] == "call" and sv[2][0][1] == ".wait" \
+            and strip_epoch(sv[2][0][2][0]) == ("f0", SELF, CLOSING)
+    seen_aw = set()
+    for p in ps:
+        for e in p.effects:
+            if e[0] != "await" or e[2] in seen_aw:
+                continue
+            a = e[1]
+            ok_aw = False
+            if a[0] == "call" and a[1] == "wait" and a[2] and a[2][0][0] == "tuple":
+                raced = any(is_closing_wait_task(x) for x in a[2][0][1])
+                first = any(isinstance(k, tuple) and k[0] == "kw" and k[1] == "return_when" and "FIRST_COMPLETED" in str(k[2]) for k in a[2])
+                ok_aw = raced and first
+            elif a[0] == "call" and isinstance(a[1], str) and helpers.get(a[1].split(".")[-1]):
+                ok_aw = True  # the settle helper: cancelled tasks finish promptly
+            if not ok_aw:
+                seen_aw.add(e[2])
+                rep.violation("R1", f"{MOD}.ConnectionManager.connect_loop", "uninterruptible-await", "the reconnect loop suspends on something that is not raced against the closing event: "
+                              "close() cannot interrupt it, so the loop outlives close() by that wait", file, e[2], witness=show_sv(a)[:100])
     CONN = ("f0", SELF, conn)
     bad4 = bad5 = 0
     n_drop = 0
@@ -215,6 +276,30 @@ def check(src, rep):
             rep.violation("R6", f"{MOD}.ConnectionManager.close", "transport-not-closed", "close() does not close the current transport", file, close.node.lineno)
     if okc:
         rep.ok("R6", "close()", "sets the closing event first, then closes the current transport if there is one")
+
+
+def _waits_on_possibly_empty(fn):
+    """the helper awaits wait(<its collection parameter>) without a dominating emptiness test"""
+    a = fn.args
+    coll = a.vararg.arg if a.vararg else (a.args[-1].arg if a.args else None)
+    if coll is None:
+        return False
+    parents = {c: p for p in ast.walk(fn) for c in ast.iter_child_nodes(p)}
+    for n in ast.walk(fn):
+        if isinstance(n, ast.Call) and getattr(n.func, "id", getattr(n.func, "attr", "")) == "wait" and n.args and isinstance(n.args[0], ast.Name) and n.args[0].id == coll:
+            cur, guarded = n, False
+            while cur in parents:
+                par = parents[cur]
+                if isinstance(par, ast.If) and coll in {x.id for x in ast.walk(par.test) if isinstance(x, ast.Name)}:
+                    guarded = True
+                cur = par
+            # early `if not coll: return` before the wait
+            for s in fn.body:
+                if isinstance(s, ast.If) and coll in {x.id for x in ast.walk(s.test) if isinstance(x, ast.Name)} and s.body and isinstance(s.body[-1], ast.Return) and s.lineno < n.lineno:
+                    guarded = True
+            if not guarded:
+                return True
+    return False
 
 
 def thorough(src, rep):
